@@ -61,6 +61,18 @@ Definition slab_location (uuid : pystr) : pystr := os_join s_batched uuid.
 (* key of the global manifest *)
 Definition manifest_path (rank : Z) (logical : pystr) : pystr := os_join (str_of_Z rank) logical.
 
+(* the keys of the global manifest built by _gather_manifest from the per-rank manifests (rank = position) *)
+Fixpoint global_from (r : nat) (ms : list (list pystr)) : list pystr :=
+  match ms with
+  | [] => []
+  | m :: rest => map (manifest_path (Z.of_nat r)) m ++ global_from (S r) rest
+  end.
+Definition global_paths (ms : list (list pystr)) : list pystr := global_from 0 ms.
+
+(* the leaf paths of one rank: app_state = [(key, state_dict)], each flattened under its key *)
+Definition rank_leaf_paths (st : list (pystr * obj)) : list pystr :=
+  flat_map (fun kv => map fst (snd (flatten_s (snd kv) (fst kv)))) st.
+
 (* ------------------------------------------------------------------ a saved object's own location *)
 (* one write request of one leaf: the leaf's logical path as components, and the chunk / shard offsets if the leaf
    is written in pieces *)
